@@ -363,6 +363,36 @@ func handleTrav(c *core.Check, st core.State) {
 	predErr := tla.Bool(pred["err"])
 	predVal, predOK := e1.DecodeValue(pred["v"])
 	predOom := tla.Str(tla.Rec(pred["v"])["k"]) == "oom"
+	// two legacy steps in a row: the text is outside the grammar of both parsers; only the
+	// implication "the stand-alone parser accepts => the expression parser accepts the same traversal"
+	for i := 1; i < len(steps); i++ {
+		if tla.Str(tla.Rec(steps[i])["k"]) == "legacy" && tla.Str(tla.Rec(steps[i-1])["k"]) == "legacy" {
+			raw := root
+			for _, s := range steps {
+				raw += stepText(tla.Rec(s), "")
+			}
+			vec := map[string]any{"state": st.Raw, "source": raw, "kind": "trav"}
+			c.Count("evaluations", 1)
+			pt, pd := hclsyntax.ParseTraversalAbs([]byte(raw), "t.hcl", hcl.InitialPos)
+			if pd.HasErrors() {
+				return
+			}
+			expr, ed := hclsyntax.ParseExpression([]byte(raw), "e.hcl", hcl.InitialPos)
+			if ed.HasErrors() {
+				c.Violation("standalone-accepts-rejected-text", fmt.Sprintf("%q is accepted by ParseTraversalAbs (as %d steps) but rejected by the expression parser: %s", raw, len(pt), ed.Error()), vec)
+				return
+			}
+			et, td := hcl.AbsTraversalForExpr(expr)
+			if td.HasErrors() {
+				c.Violation("standalone-accepts-nontraversal/chained-legacy", fmt.Sprintf("%q is accepted by ParseTraversalAbs but is not a traversal for the expression parser", raw), vec)
+				return
+			}
+			if m := travEqual(pt, et); m != "" {
+				c.Violation("standalone-vs-expr-traversal/chained-legacy", fmt.Sprintf("%q: ParseTraversalAbs and AbsTraversalForExpr differ: %s", raw, m), vec)
+			}
+			return
+		}
+	}
 	for layout := 0; layout < 3; layout++ {
 		src := root
 		for _, s := range steps {
